@@ -27,7 +27,7 @@ HEADLINE = ["fault_cases", "faults_fired", "kind_exit", "kind_raise", "kind_clos
 
 def plan(tier, seed, scale):
     q = tier == "quick"
-    return {"n_cases": 1, "until": 3 if q else 4, "catalogue": [0, 1, 2, 4] if q else [0, 1, 2, 3, 4],
+    return {"n_cases": 1, "until": 3 if q else 4, "catalogue": [0, 1, 2, 4, 5] if q else [0, 1, 2, 3, 4, 5],
             "repeat": 1 if q else 3, "timeout_s": 1500 if q else 10800}
 
 
@@ -67,6 +67,14 @@ def catalogue(k: int, until: int):
                          {"src": "B", "se": "e0", "sa": "o", "dst": "C", "de": "e0", "da": "i"},
                          {"src": "A", "se": "e0", "sa": "o", "dst": "D", "de": "e0", "da": "i"}]}
         remote = ["B", "C", "D"]    # A in-process
+    elif k == 5:
+        # simulators announcing an older API version (wrapped in version adapters): remote 2.2, in-process 2.0
+        scn = {"sims": [dict(sim("A", "time-based", {}, {"o": "persistent"}), api_version="2.2"),
+                        dict(sim("B", "time-based", {"i": "nontrigger"}, {"o": "persistent"}), api_version="2.0"),
+                        sim("C", "time-based", {"i": "nontrigger"}, {})],
+               "conns": [{"src": "A", "se": "e0", "sa": "o", "dst": "B", "de": "e0", "da": "i"},
+                         {"src": "B", "se": "e0", "sa": "o", "dst": "C", "de": "e0", "da": "i"}]}
+        remote = ["A", "C"]
     else:
         scn = {"sims": [sim("A", "time-based", {}, {"o": "persistent"}),
                         sim("B", "time-based", {"i": "nontrigger"}, {})],
@@ -402,7 +410,7 @@ def decide(m, tier):
 
 def evidence(m, tier, seed):
     return {"level": "fault_enumeration", "coverage": {
-        "rule": "catalogue of 4 (thorough: 5) scenarios with 2-4 simulators, remote (real processes over TCP) and "
+        "rule": "catalogue of 5 (thorough: 6) scenarios (one with simulators announcing API 2.x, i.e. wrapped in version adapters) with 2-4 simulators, remote (real processes over TCP) and "
                 "in-process mixes; a fault-free run counts the requests R_S each simulator receives (setup_done, "
                 "steps, get_data); then EVERY (simulator, request index < R_S, kind) with kind in {process exit, "
                 "exception in handler, connection abort} for remote and exceptions {RuntimeError, TypeError, ValueError, "
